@@ -87,9 +87,6 @@ def ValRel (K : Consts) (hp hp' : Heap) (R : Nat → Nat → Prop) : Nat → Val
     (∃ l l', v = .refs l ∧ v' = .refs l' ∧ RefsRel (fun a a' => ValRel K hp hp' R d (.ref a) (.ref a')) l l') ∨
     (EmptyList v ∧ EmptyList v')
 
-/-- the nesting depth both sides can afford: `renderVal` runs with the budget `|heap| + 1` -/
-def isoDepth (hp hp' : Heap) : Nat := min hp.length hp'.length + 1
-
 /-- **isomorphism of the collected parts of two CASes**, as far as the comparable text can tell.
     `φ` sends the structures collected in `hp` (`addrs`, what `_find_all_fs` returned) to those collected in `hp'`. -/
 structure Iso (K : Consts) (cass cass' : List Cas) (hp hp' : Heap) (indexed indexed' addrs addrs' : List Nat)
@@ -108,9 +105,11 @@ structure Iso (K : Consts) (cass cass' : List Cas) (hp hp' : Heap) (indexed inde
   view : ∀ a ∈ addrs, viewTag cass' hp' (φ a) = viewTag cass hp a
   /-- structures with offsets cover the same text -/
   covered : ∀ a ∈ addrs, isAnnot hp a = true → Cas.coveredText cass' hp' (φ a) = Cas.coveredText cass hp a
-  /-- every slot but `sofa` holds related values (an absent slot counts as `None`, as for `fs[name]`) -/
+  /-- every slot but `sofa` holds related values, to some nesting depth (an absent slot counts as `None`, as for
+      `fs[name]`).  The depth is arbitrary: the recursion budget of the model, `2 * |heap| + 2`, is as good as any larger
+      one (`renderVal_saturated`, `Proofs/ComparableFuel.lean`) -/
   slots : ∀ a ∈ addrs, ∀ n : String, n ≠ "sofa" →
-    ValRel K hp hp' (SameKey hp hp' addrs φ) (isoDepth hp hp')
+    ∃ d : Nat, ValRel K hp hp' (SameKey hp hp' addrs φ) d
       ((slot hp a n).getD .none) ((slot hp' (φ a) n).getD .none)
   /-- a collected array object has its `elements` slot on both sides or on neither -/
   elems : ∀ a ∈ addrs, isArrayFs K hp a = true →
